@@ -576,7 +576,9 @@ impl FilteredReadStream {
                 &mut scan_push_down_fragments_to_read,
             );
 
-            if to_take == 0 {
+            // Skip/take may only be applied to the index result when the index answers the
+            // whole filter: rows removed afterwards by a refine filter would be missing.
+            if to_take == 0 && options.refine_filter.is_none() {
                 scan_planned_with_limit_pushed_down = true;
                 fragments_to_read = scan_push_down_fragments_to_read;
                 break;
